@@ -31,11 +31,19 @@ func (e *wmEngine) Gen(r *hlib.Rand, tier string) []string {
 	}
 	var live []*sth
 	nextTid := 0
-	n := 8 + r.Intn(25)
+	// quick tier: short cases, no window rebuild (the model walks a 65536 gap index by index);
+	// the thorough tier has the long cases and the far jumps
+	n := 6 + r.Intn(12)
+	maxLive := 2
 	farLeft := 0
-	if r.Chance(15) {
-		farLeft = 1
+	if tier == "thorough" {
+		n = 8 + r.Intn(25)
+		maxLive = 3
+		if r.Chance(15) {
+			farLeft = 1
+		}
 	}
+	lastDone := uint64(0)
 	beginIdx := func() uint64 {
 		x := r.Intn(100)
 		switch {
@@ -63,6 +71,18 @@ func (e *wmEngine) Gen(r *hlib.Rand, tier string) []string {
 	for i := 0; i < n; i++ {
 		x := r.Intn(100)
 		switch {
+		case x < 4:
+			// index 0: ignored by addIndex, or counted like any other index (fact wm.tracksZero)
+			if r.Bool() {
+				ops = append(ops, "wm.begin 0")
+			} else {
+				ops = append(ops, "wm.done 0")
+			}
+		case x < 9 && lastDone > 0:
+			// begin again the index that was finished last: it is often equal to the mark, where a
+			// pending count holds the mark or not (fact wm.holdsAtDone); outside C32's spec domain
+			ops = append(ops, fmt.Sprintf("wm.begin %d", lastDone))
+			open = append(open, lastDone)
 		case x < 30:
 			idx := beginIdx()
 			ops = append(ops, fmt.Sprintf("wm.begin %d", idx))
@@ -75,6 +95,7 @@ func (e *wmEngine) Gen(r *hlib.Rand, tier string) []string {
 			j := r.Intn(len(open))
 			ops = append(ops, fmt.Sprintf("wm.done %d", open[j]))
 			delete(held, open[j])
+			lastDone = open[j]
 			if !r.Chance(8) { // sometimes Done twice
 				open = append(open[:j], open[j+1:]...)
 			}
@@ -82,7 +103,7 @@ func (e *wmEngine) Gen(r *hlib.Rand, tier string) []string {
 			ops = append(ops, fmt.Sprintf("wm.done %d", last+1+uint64(r.Intn(3)))) // never begun
 		case x < 68:
 			ops = append(ops, fmt.Sprintf("wm.wait %d", uint64(r.Intn(int(last%1000)+3))))
-		case x < 80 && len(live) < 3:
+		case x < 80 && len(live) < maxLive:
 			kind := "begin"
 			var idx uint64
 			if r.Chance(60) || len(open) == 0 {
@@ -207,7 +228,7 @@ func (e *wmEngine) Exec(ops []string) []string {
 			out[i] = "ok"
 		case (f[0] == "wm.begin" || f[0] == "wm.done") && len(f) == 2:
 			idx, err := strconv.ParseUint(f[1], 10, 64)
-			if err != nil || idx == 0 {
+			if err != nil {
 				out[i] = "bad-op"
 				continue
 			}
